@@ -299,6 +299,12 @@ def ldpc(tier, seed):
     for m, n in plan:
         for rows in allH(m, n):
             yield ("ldpc", f"H={mat_str(rows, n)}", {"H": T(rows_to_lists(rows, n))})
+    # more checks than code bits (redundant checks, m > n): every H in GF(2)^{3x2}, and GF(2)^{4x3} (quick: a rotating quarter)
+    for rows in allH(3, 2):
+        yield ("ldpc", f"H={mat_str(rows, 2)}", {"H": T(rows_to_lists(rows, 2))})
+    for i, rows in enumerate(allH(4, 3)):
+        if tier != "quick" or i % 4 == seed % 4:
+            yield ("ldpc", f"H={mat_str(rows, 3)}", {"H": T(rows_to_lists(rows, 3))})
     if tier == "quick":
         shard = seed % 8
         for i, rows in enumerate(allH(3, 4)):
@@ -316,6 +322,10 @@ def ldpc(tier, seed):
         "dup3x6": [[1, 1, 0, 1, 0, 0], [1, 1, 0, 1, 0, 0], [0, 0, 1, 0, 1, 1]],
         "zero3x5": [[0, 0, 0, 0, 0], [1, 1, 0, 1, 0], [0, 1, 1, 0, 1]],
         "ham3x7": [[1, 1, 0, 1, 1, 0, 0], [1, 0, 1, 1, 0, 1, 0], [0, 1, 1, 1, 0, 0, 1]],
+        # redundant checks: repetition codes given by more pairwise checks than bits (the first n rows do not span the row space)
+        "rep6-7checks": [[1, 1, 0, 0, 0, 0], [0, 1, 1, 0, 0, 0], [1, 0, 1, 0, 0, 0], [0, 0, 0, 1, 1, 0], [0, 0, 0, 0, 1, 1], [0, 0, 0, 1, 0, 1], [0, 0, 1, 1, 0, 0]],
+        "rep4-6checks": [[1, 1, 0, 0], [1, 0, 1, 0], [0, 1, 1, 0], [1, 0, 0, 1], [0, 1, 0, 1], [0, 0, 1, 1]],
+        "ham7x7": [[1, 1, 0, 1, 1, 0, 0], [1, 0, 1, 1, 0, 1, 0], [0, 1, 1, 0, 1, 1, 0], [0, 1, 1, 1, 0, 0, 1], [1, 0, 1, 0, 1, 0, 1], [1, 1, 0, 0, 0, 1, 1], [0, 0, 0, 1, 1, 1, 1]],
     }
     for nm, H in docs.items():
         yield ("ldpc", f"H={nm}", {"H": T(H)})
